@@ -754,6 +754,24 @@ def runBuilder (b : List Nat → List Nat → BM (List Nat)) (pro : Bool) (nx ny
   let o := retWires r.1 r.2
   (o.2, o.1)
 
+/-- `NewArrayMultiplier` as `Circuit.Compute` sees it: a result wire that the
+builder leaves unconnected reads 0 (the wire store is zero-initialised). -/
+def evalArrayMult (pro : Bool) (x y : List Bool) (nz : Nat) : List Bool :=
+  let s0 := initSt (x.length + y.length) pro
+  let r := arrayMultiplierOpt (inputWires 0 x.length) (inputWires x.length y.length) nz s0
+  r.1.toList.map fun o => match o with
+    | some w => r.2.val (x ++ y) w
+    | none => false
+
+/-- Three-operand variant (`NewMUX`: condition `w`): inputs `x ‖ y ‖ w`. -/
+def evalBuilder3 (b : List Nat → List Nat → List Nat → BM (List Nat)) (pro : Bool) (x y w : List Bool) :
+    List Bool :=
+  let s0 := initSt (x.length + y.length + w.length) pro
+  let r := b (inputWires 0 x.length) (inputWires x.length y.length)
+    (inputWires (x.length + y.length) w.length) s0
+  let o := retWires r.1 r.2
+  o.1.map (o.2.val (x ++ y ++ w))
+
 /-- Output bits of a built circuit on the operand bits `x ‖ y`. -/
 def evalBuilder (b : List Nat → List Nat → BM (List Nat)) (pro : Bool) (x y : List Bool) : List Bool :=
   let r := runBuilder b pro x.length y.length
